@@ -10,6 +10,7 @@ import optree
 from .. import gen, runner, sx, world
 from ..world import World, realize, attempt
 from . import specops
+from ..implops import res_spec
 
 PROP = 'C08'
 
@@ -231,6 +232,7 @@ def run(res, tier, seed):
         res.compare(c, a, b, 'cmd_arr_children')
     run_constructors(res, rng, n, limit)
     run_repr(res, rng, n, limit)
+    run_transform_general(res, rng, n, limit)
 
 
 # ---------------------------------------------------------------- cmd 28: repr as the model's token list
@@ -375,3 +377,101 @@ def run_constructors(res, rng, n, limit):
 
 if __name__ == '__main__':
     runner.main(__import__('harness.props.c08', fromlist=['x']))
+
+
+# ---------------------------------------------------------------- cmd 30: transform with a different answer per leaf
+def run_transform_general(res, rng, n, limit):
+    """treespec.transform(None, f_leaf) where the i-th call of f_leaf returns the treespec of the i-th of a list of
+    trees (each flattened under its own options): the array-level pass of TransformArr.v (arr_transform_gen) against
+    the implementation, plus property-level oracles on the result (counts, paths, constant answers = compose)."""
+    cmds, obs = [], []
+    for i in range(n):
+        c0 = gen.gen_cfg(rng, limit)
+        g = gen.TreeGen(rng, world.STRUCTSEQ_ARITY, max_nodes=rng.choice([3, 6, 12]), max_depth=rng.choice([2, 3, 5]),
+                        max_arity=rng.choice([2, 3, 4]))
+        o0 = g.tree()
+        gi = gen.TreeGen(rng, world.STRUCTSEQ_ARITY, max_nodes=rng.choice([1, 4, 9]), max_depth=rng.choice([1, 3, 4]),
+                         max_arity=rng.choice([1, 2, 4]))
+        # the answers' options: mostly compatible with the outer's (same none_is_leaf; namespace '' or one name)
+        name = rng.choice([1, 2, 3]) if c0[1] == 0 else c0[1]
+        mode = rng.random()
+        same_answer = rng.random() < 0.12
+        with World(c0) as w:
+            tree = realize(o0, random.Random(i), {})
+            kw0 = w.kw()
+            f0 = attempt(lambda: optree.tree_flatten(tree, **kw0))
+            if f0[0] != 0:
+                res.count('transform_general_outer_not_flattenable')
+                continue
+            s0 = f0[1][1]
+            inn, specs, bad = [], [], False
+            first = None
+            for j in range(s0.num_leaves):
+                if same_answer and first is not None:
+                    ci, oi = first
+                else:
+                    if mode < 0.8:
+                        nsj = rng.choice([0, name, name]) if rng.random() < 0.97 else rng.choice([0, 1, 2, 3])
+                        nilj = c0[0] if rng.random() < 0.985 else 1 - c0[0]
+                    else:
+                        nsj = rng.choice([0, 0, 1, 2, 3])
+                        nilj = c0[0] if rng.random() < 0.9 else 1 - c0[0]
+                    ci = (nilj, nsj, 0, c0[3], c0[4], c0[5])
+                    oi = gi.tree()
+                    first = first or (ci, oi)
+                wi = World(ci)
+                ti = realize(oi, random.Random(1000 * i + j), {})
+                kwi = wi.kw()
+                fi = attempt(lambda: optree.tree_flatten(ti, **kwi))
+                if fi[0] != 0:
+                    bad = True
+                    break
+                inn.append((ci, oi))
+                specs.append(fi[1][1])
+            if bad:
+                res.count('transform_general_answer_not_flattenable')
+                continue
+            case = (30, c0, o0, tuple(inn))
+            calls = []
+
+            def f_leaf(leafspec, _it=iter(specs)):
+                calls.append(leafspec)
+                return next(_it)
+            r = attempt(lambda: s0.transform(None, f_leaf))
+            res.evaluations += 1
+            if r[0] == 0:
+                out = r[1]
+                res.count('transform_general_ok')
+                if len(calls) != s0.num_leaves or not all(c.is_leaf() for c in calls):
+                    res.fail('transform: f_leaf is not called exactly once per leaf with a leaf treespec', case)
+                if out.num_leaves != sum(s.num_leaves for s in specs):
+                    res.fail('transform with per-leaf answers: num_leaves is not the sum of the answers\' leaves', case, repr(out))
+                if out.num_nodes != s0.num_nodes - s0.num_leaves + sum(s.num_nodes for s in specs):
+                    res.fail('transform with per-leaf answers: num_nodes is not outer internal nodes + the answers\' nodes', case, repr(out))
+                want = [p + q for p, s in zip(s0.paths(), specs) for q in s.paths()]
+                if out.paths() != want:
+                    res.fail('transform with per-leaf answers: paths are not outer path + answer path, in leaf order', case,
+                             f'{out.paths()} vs {want}')
+                if out.none_is_leaf != s0.none_is_leaf:
+                    res.fail('transform changed none_is_leaf', case)
+                names = [s.namespace for s in [s0] + specs if s.namespace]
+                if out.namespace != (names[0] if names else ''):
+                    res.fail('transform: the namespace of the result is not the first non-empty namespace', case,
+                             f'{out.namespace!r} vs {names}')
+                if specs and all(s is specs[0] for s in specs):
+                    comp = attempt(lambda: s0.compose(specs[0]))
+                    if comp[0] != 0 or comp[1] != out or comp[1].__getstate__() != out.__getstate__():
+                        res.fail('transform answering every leaf with s differs from compose(s)', case)
+                    res.count('transform_general_constant')
+            else:
+                res.count('transform_general_err_%s' % (r[0],))
+                # an error is justified only by an answer whose options disagree
+                names = [s.namespace for s in [s0] + specs if s.namespace]
+                if all(s.none_is_leaf == s0.none_is_leaf for s in specs) and len(set(names)) <= 1:
+                    res.fail('transform with compatible per-leaf answers raised', case, str(r))
+        cmds.append(case)
+        obs.append((0, res_spec(r)))
+        res.note_input(case, s0.num_leaves >= 2)
+    mod = runner.run_model(cmds)
+    for c, a, b in zip(cmds, obs, mod):
+        res.compare(c, a, b, 'cmd_transform_general')
